@@ -146,6 +146,101 @@ fn with_info_cases(o: &mut Out, rng: &mut Rng, thorough: bool) {
     }
 }
 
+/// animations whose later frames all go through ONE stream writer (the first image is written whole): every frame must decode to the bytes
+/// given - in particular the first row of every later frame is filtered as the first row of an image
+fn streamed_animation_cases(o: &mut Out, rng: &mut Rng, thorough: bool) {
+    use std::io::Write;
+    for k in 0..(if thorough { 300 } else { 36 }) {
+        let (color, depth) = *rng.pick(&[(0u8, 8u8), (2, 8), (6, 8), (0, 16), (4, 8)]);
+        let (w, h) = (rng.range(1, 7) as u32, rng.range(1, 5) as u32);
+        let filter = (k % 6) as u8;
+        let nframes = 2 + (k % 3) as u32;
+        let rb = row_bytes(color, depth, w as u64) as usize;
+        let images: Vec<Vec<u8>> = (0..nframes).map(|_| rng.bytes(rb * h as usize)).collect();
+        o.mark(&format!("streamed animation c{}d{} {}x{} f{} frames={}", color, depth, w, h, filter, nframes));
+        let sink = Sink::new(0, None, false);
+        let r = guarded(|| -> Result<(), String> {
+            let mut e = png::Encoder::new(sink.clone(), w, h);
+            e.set_color(color_of(color));
+            e.set_depth(depth_of(depth));
+            e.set_animated(nframes, 0).map_err(|er| format!("{:?}", er))?;
+            e.set_filter(filter_of(filter));
+            set_compression(&mut e, 2 + (k % 8) as u8);
+            let mut wr = e.write_header().map_err(|er| format!("header: {:?}", er))?;
+            wr.write_image_data(&images[0]).map_err(|er| format!("image 0: {:?}", er))?;
+            {
+                let mut sw = wr.stream_writer_with_size(*rng.pick(&[16usize, 64, 4096])).map_err(|er| format!("stream writer: {:?}", er))?;
+                for im in images.iter().skip(1) { sw.write_all(im).map_err(|er| format!("write: {:?}", er))?; }
+                sw.finish().map_err(|er| format!("stream finish: {:?}", er))?;
+            }
+            wr.finish().map_err(|er| format!("finish: {:?}", er))
+        });
+        o.direct_checks += 1;
+        o.count("streamed-animations");
+        match r {
+            Ok(Ok(())) => {}
+            Ok(Err(e)) => { o.violation(viol("encoder-refused-a-legal-image", vec![("why", jstr(&e))])); continue; }
+            Err(m) => { o.violation(viol("encoder-panicked", vec![("why", jstr(&m))])); continue; }
+        }
+        let bytes = sink.0.borrow().accepted.clone();
+        let (end, frames) = decode_frames(&bytes, Opts::default(), 0, 0);
+        let bad = frames.len() != images.len() || frames.iter().zip(images.iter()).any(|(a, b)| &a.1 != b);
+        if bad {
+            let first_bad = frames.iter().zip(images.iter()).position(|(a, b)| &a.1 != b);
+            o.violation(viol("roundtrip-through-own-decoder-differs", vec![("why", jstr(&format!("{} of {} frames decoded, first differing frame {:?}, end {}", frames.len(), images.len(), first_bad, end))),
+                ("filter", filter.to_string()), ("emitted", jstr(&hex(&bytes)))]));
+        }
+    }
+}
+
+/// the stream writer with the filter setting changed between rows (StreamWriter::set_filter): every row is filtered against the row above it,
+/// whatever filter that row itself was written with - the stream decodes to the bytes given, by the crate and by the reference decoder
+pub fn filter_switch_cases(o: &mut Out, rng: &mut Rng, thorough: bool) {
+    use std::io::Write;
+    for k in 0..(if thorough { 600 } else { 60 }) {
+        let (color, depth) = COLOR_DEPTHS[(k % 15) as usize];
+        let (w, h) = (rng.range(1, 10) as u32, rng.range(2, 8) as u32);
+        let palette = if color == 3 { Some((0..3 * (1usize << depth.min(8))).map(|i| (i * 5) as u8).collect::<Vec<u8>>()) } else { None };
+        let rb = row_bytes(color, depth, w as u64) as usize;
+        let data = rng.bytes(rb * h as usize);
+        // a plan: the filter setting in force for each row (runs of NoFilter followed by predicting filters are the interesting part)
+        let plan: Vec<u8> = (0..h).map(|r| if k % 3 == 0 { if r % 2 == 0 { 0 } else { *rng.pick(&[2u8, 3, 4, 5]) } } else { rng.below(6) as u8 }).collect();
+        o.mark(&format!("filter switches c{}d{} {}x{} plan={:?} {}", color, depth, w, h, plan, hex(&data)));
+        let sink = Sink::new(0, None, false);
+        let r = guarded(|| -> Result<(), String> {
+            let mut e = png::Encoder::new(sink.clone(), w, h);
+            e.set_color(color_of(color));
+            e.set_depth(depth_of(depth));
+            if let Some(p) = &palette { e.set_palette(p.clone()); }
+            set_compression(&mut e, 2 + (k % 9) as u8);
+            let mut wr = e.write_header().map_err(|er| format!("{:?}", er))?;
+            let mut sw = wr.stream_writer().map_err(|er| format!("{:?}", er))?;
+            for (r, f) in plan.iter().enumerate() {
+                sw.set_filter(filter_of(*f));
+                sw.write_all(&data[r * rb..(r + 1) * rb]).map_err(|er| format!("write: {:?}", er))?;
+            }
+            sw.finish().map_err(|er| format!("{:?}", er))?;
+            drop(wr);
+            Ok(())
+        });
+        o.direct_checks += 1;
+        o.count("filter-switches");
+        match r {
+            Ok(Ok(())) => {}
+            Ok(Err(e)) => { o.violation(viol("encoder-refused-a-legal-image", vec![("why", jstr(&e))])); continue; }
+            Err(m) => { o.violation(viol("encoder-panicked", vec![("why", jstr(&m))])); continue; }
+        }
+        let bytes = sink.0.borrow().accepted.clone();
+        let (end, frames) = decode_frames(&bytes, Opts::default(), 0, 0);
+        let own_ok = frames.first().map_or(false, |f| f.1 == data);
+        let ref_ok = match reference_decode(&bytes, w, h, color, depth) { Ok((px, _)) => px == data, Err(_) => false };
+        if !own_ok || !ref_ok {
+            o.violation(viol(if !own_ok { "roundtrip-through-own-decoder-differs" } else { "roundtrip-through-reference-decoder-differs" }, vec![("why", jstr(&format!("filter plan {:?}; end {}", plan, end))),
+                ("given", jstr(&hex(&data))), ("emitted", jstr(&hex(&bytes)))]));
+        }
+    }
+}
+
 /// StreamWriter::write call by call (still images): the number of bytes every call accepts and the bytes handed to the compressor
 /// (= the inflated IDAT stream) vs Model/StreamWriterBuf.v sw_trace
 fn stream_trace_cases(o: &mut Out, rng: &mut Rng, thorough: bool) {
@@ -340,6 +435,8 @@ pub fn run(a: &Args) {
         o.count("large-chunk-buffers");
     }
     with_info_cases(&mut o, &mut rng, thorough);
+    filter_switch_cases(&mut o, &mut rng, thorough);
+    streamed_animation_cases(&mut o, &mut rng, thorough);
     stream_trace_cases(&mut o, &mut rng, thorough);
     chunk_writer_cases(&mut o, &mut rng, thorough);
     o.mark("done");
